@@ -302,7 +302,9 @@ def check_bitmap_font(ctx, res, case, out):
                     res.add_cex("CBDT BearingX does not centre the square bitmap in its advance",
                                 {"case": case, "i": i, "BearingX": m.BearingX, "ideal": float(ideal_x)}, {"site": "cbdt-centring", "case": case["id"], "i": i})
             adv_px = F(adv * want_ppem, cfg.upem)
-            if abs(m.Advance - adv_px) > F(1, 2) + F(adv, 2 * cfg.upem) + F(R, 2 * H) * F(adv, cfg.upem) + F(1, 2):
+            # roundings involved: Advance to whole pixels (1/2), hmtx advance to whole font units (1/2 unit = ppem/(2 upem) px),
+            # ppem to a whole number (<= adv/(2 upem) px), and the bitmap-pixel vs ppem-pixel scale (|L-R|/R of the advance)
+            if abs(m.Advance - adv_px) > F(1, 2) + F(want_ppem, 2 * cfg.upem) + F(adv, 2 * cfg.upem) + abs(L - R) / R * adv_px + F(1, 2):
                 res.add_cex("CBDT pixel advance does not match the scaled font advance", {"case": case, "i": i, "Advance": m.Advance, "scaled": float(adv_px)},
                             {"site": "cbdt-advance", "case": case["id"], "i": i})
             if (m.width, m.height) != (w, h):
